@@ -28,6 +28,7 @@ from .. import cir, ctypeinfo, engine, modref, xmacro
 from ..cfront import AnalysisError
 
 FILE = "src/engine/engine_io.c"
+IO_PRIMS = ("bufread", "bufwrite", "getnsize", "getnptr")
 EXEMPT_FIELDS = {
     "buffer": "the allocation that holds the arrays themselves; rebuilt by mj_makeModel",
     "signature": "compiler bookkeeping (hash of the producing spec), not consumed by the engine and outside the sizes/options/"
@@ -177,8 +178,9 @@ def run(res, tier):
 
     # ---------------------------------------------------------------- IO-SEQ
     res.rule("IO-SEQ", "writer, reader and size computation agree on (field, size) sequence", floor=480)
-    w = _io_calls(u.funcs["mj_saveModel"], "bufwrite")
-    r = _io_calls(u.funcs["mj_loadModelBuffer"], "bufread")
+    from .. import norm
+    w = _io_calls(norm.canon(u, "mj_saveModel", nested=False, exclude=IO_PRIMS), "bufwrite")
+    r = _io_calls(norm.canon(u, "mj_loadModelBuffer", nested=False, exclude=IO_PRIMS), "bufread")
     # header
     if not w or not r or w[0]["field"] != "header" or r[0]["field"] != "header":
         raise AnalysisError("header write/read not found first")
@@ -233,20 +235,45 @@ def run(res, tier):
     else:
         res.ok("IO-SEQ", "pointers:table-order", {"count": len(prow)})
     # mj_sizeModel: multiset of terms
-    fn = u.funcs["mj_sizeModel"]
+    # (the accumulator is whatever variable the function returns; named sub-totals are substituted into it)
+    from .. import norm
+    fn = norm.canon(u, "mj_sizeModel", propagate=True, nested=False, exclude=IO_PRIMS)
+    _pre = {x.get("n") for x in cir.walk(u.funcs["mj_sizeModel"]) if x.get("k") == "VarDecl" and x.get("init") and
+            cir.text([c for c in cir.kids(x) if c][-1]) == "m->" + (x.get("n") or "")}
+    rets = [x for x in cir.walk(fn) if x.get("k") == "ReturnStmt" and cir.kids(x)]
+    accs = {cir.text(cir.kids(x)[0]) for x in rets}
+    if len(accs) != 1:
+        raise AnalysisError(f"mj_sizeModel: expected one returned accumulator, found {sorted(accs)}")
+    acc = accs.pop()
+
+    def _sum_terms(e):
+        e = cir.strip(e)
+        if e is not None and e.get("k") == "BinaryOperator" and e.get("op") == "+":
+            return _sum_terms(cir.kids(e)[0]) + _sum_terms(cir.kids(e)[1])
+        return [e]
     terms = []
     for nnode in cir.walk(fn):
-        if nnode.get("k") == "VarDecl" and nnode.get("n") == "size" and nnode.get("init"):
-            t = cir.text([c for c in cir.kids(nnode) if c][-1])
-            for x in _split_top(t, " + "):
-                terms += _expand_count(_norm_size(x))
-        if nnode.get("k") == "CompoundAssignOperator" and nnode.get("op") == "+=":
-            terms.append(_norm_size(cir.text(cir.kids(nnode)[1])))
+        if nnode.get("k") == "VarDecl" and nnode.get("n") == acc and nnode.get("init"):
+            for x in _sum_terms([c for c in cir.kids(nnode) if c][-1]):
+                terms += _expand_count(_norm_size(cir.text(x)))
+        if nnode.get("k") == "CompoundAssignOperator" and nnode.get("op") == "+=" and cir.text(cir.kids(nnode)[0]) == acc:
+            for x in _sum_terms(cir.kids(nnode)[1]):
+                terms += _expand_count(_norm_size(cir.text(x)))
+        if nnode.get("k") == "BinaryOperator" and nnode.get("op") == "=" and cir.text(cir.kids(nnode)[0]) == acc:
+            ts = _sum_terms(cir.kids(nnode)[1])
+            rest = [x for x in ts if cir.text(x) != acc]
+            if len(rest) != len(ts) - 1:
+                raise AnalysisError("mj_sizeModel: the accumulator is overwritten")
+            for x in rest:
+                terms += _expand_count(_norm_size(cir.text(x)))
     want = [w[0]["size"] if "sizeof(int)" in w[0]["size"] else _norm_size("sizeof(int) * 5")]
     want = []
     # expected: header + size block + every remaining write
     exp = [_norm_size("sizeof(int) * 5"), _norm_size("sizeof(mjtSize) * getnsize()")] + [x[1] for x in wrest]
-    tm = sorted(terms)
+    # model sizes may be spelled m->n or through the preamble local n: compare modulo that spelling
+    _sp = lambda t: " * ".join(sorted(re.sub(r"\bm->", "", t).split(" * ")))
+    exp = [_sp(t) for t in exp]
+    tm = sorted(_sp(t) for t in terms)
     if sorted(exp) == tm:
         res.ok("IO-SEQ", "sizeModel:terms", {"terms": len(tm)})
     else:
@@ -257,38 +284,45 @@ def run(res, tier):
 
     # ---------------------------------------------------------------- IO-GUARD
     res.rule("IO-GUARD", "each bufread dominated by a rejecting guard budgeting the same size", floor=480)
-    fn = u.funcs["mj_loadModelBuffer"]
+    # canonical view of the loader (static helpers inlined, early returns nested): the guards of a bufread call are the
+    # comparisons enclosing it.  A truncation guard is a relation  buffer_sz - ptrbuf - (sum of sizes) >= 0  whose other side
+    # warns and returns NULL; every read consumes its size from the budget of the guards that dominate it.
+    from .. import linform as _lf
+    fn = norm.canon(u, "mj_loadModelBuffer", exclude=IO_PRIMS)
+    lbody = cir.body(fn)
     budget = []
-    flat = []
-
-    def flatten(st):
-        for c in cir.kids(st):
-            if c is None:
+    seen_guard = set()
+    nacc = 0
+    for c in cir.calls(lbody, "bufread"):
+        for cond, pol, ifs in norm.guards(lbody, c, stmts=True) or ():
+            if id(cond) in seen_guard or ifs is None or ifs.get("k") != "IfStmt":
                 continue
-            if c.get("k") == "CompoundStmt":
-                flatten(c)
-            else:
-                flat.append(c)
-    flatten(cir.body(fn))
-    consts = {}
-    for st in flat:
-        if st.get("k") == "IfStmt":
-            cond = cir.strip(cir.kids(st)[0])
-            then = cir.kids(st)[1]
-            rejects = any(x.get("k") == "ReturnStmt" and cir.text(cir.kids(x)[0]) in ("NULL", "0") for x in cir.walk(then))
-            warns = any(cir.callee(c) == "mju_warning" for c in cir.calls(then))
-            if cond is not None and cond.get("k") == "BinaryOperator" and cond.get("op") in (">", "<") and rejects:
-                a, b = cir.kids(cond)
-                big, small = (a, b) if cond.get("op") == ">" else (b, a)
-                if cir.text(small) == "buffer_sz":
-                    parts = [p for p in _split_top(cir.text(big), " + ")]
-                    parts = [p for p in parts if p != "ptrbuf"]
-                    if not warns:
-                        res.bad("IO-GUARD", f"guard@{parts[0]}", FILE, st.get("line"), "truncation guard rejects without a warning")
-                    for p in parts:
-                        budget += _expand_count(_norm_size(p))
-            continue
-        for c, ent in [(c_, e_) for c_ in cir.calls(st, "bufread") for e_ in _expand_call(fn, c_)]:
+            rel = _lf.relation(cond, pol)
+            if not rel or rel[0].get("buffer_sz") != 1 or not (rel[0].get("ptrbuf") == -1 or
+                                                                  ("ptrbuf" not in rel[0] and nacc == 0)):
+                continue        # (before the first read the cursor is 0 and may be omitted)
+            seen_guard.add(id(cond))
+            _pre, _cnd, then, els = norm._if_parts(ifs)
+            inside_then = then is not None and any(x is c for x in cir.walk(then))
+            rej = els if inside_then else then
+            rejects = rej is not None and any(x.get("k") == "ReturnStmt" and cir.kids(x) and cir.text(cir.kids(x)[0]) in ("NULL", "0")
+                                              for x in cir.walk(rej))
+            warns = rej is not None and any(cir.callee(c_) == "mju_warning" for c_ in cir.calls(rej))
+            parts = []
+            for atom, coef in rel[0].items():
+                if atom in ("buffer_sz", "ptrbuf"):
+                    continue
+                if atom == "1" or coef > 0:
+                    parts = None
+                    break
+                parts += _expand_count(_norm_size(atom if coef == -1 else f"{-coef} * {atom}"))
+            if parts is None or not rejects:
+                continue
+            if not warns:
+                res.bad("IO-GUARD", f"guard@{parts[0] if parts else '?'}", FILE, ifs.get("line"), "truncation guard rejects without a warning")
+            budget += parts
+        for ent in _expand_call(fn, c):
+            nacc += 1
             size = ent["size"]
             tgt = cir.strip(cir.args(c)[0])
             key = ent["field"]
@@ -298,10 +332,8 @@ def run(res, tier):
             else:
                 res.bad("IO-GUARD", f"read:{key}", FILE, c.get("line"),
                         f"bufread of `{size}` into {cir.text(tgt)} is not covered by a preceding truncation guard (warning + return NULL)")
-    # any bufread nested deeper (not top-level statement) is unaccounted
-    nread = len(r)
-    if nread != res.rules["IO-GUARD"]["instances"]:
-        res.bad("IO-GUARD", "nested-read", FILE, fn.get("line"), "a bufread occurs in a nested statement the guard rule does not follow")
+    if nacc != len(r):
+        raise AnalysisError(f"IO-GUARD: {nacc} reads in the canonical loader, {len(r)} in the sequence rule")
 
     # ---------------------------------------------------------------- IO-COVER
     res.rule("IO-COVER", "every mjModel member is serialised or exempt", floor=500)
@@ -364,7 +396,10 @@ def run(res, tier):
 
 
 def validate(res, u, prow):
-    fn = u.funcs["mj_validateReferences"]
+    from .. import norm
+    # static helpers of the validator are analysed in place (`err = helper(m, i); if (err) return err;` forwards the helper's
+    # rejecting returns)
+    fn = norm.canon(u, "mj_validateReferences", nested=False)
     rows = {p["name"]: p for p in prow}
     res.rule("REF-ROW", "validation table rows carry the X-macro extent of their array and of the num array", floor=80)
     res.rule("REF-COVER", "every cross-reference int array is bound-checked by a rejecting condition", floor=100)
